@@ -76,12 +76,17 @@ Proof.
   - destruct toks; [discriminate|]. intros H; inversion H; left; reflexivity.
 Qed.
 
-Lemma token_iter_In mlen sorted t n : In (t, n) (token_iter mlen sorted) -> mlen t = Some n.
+Lemma token_iter_from_In mlen sorted : forall matched t n,
+  In (t, n) (token_iter_from mlen matched sorted) -> mlen t = Some n.
 Proof.
-  induction sorted as [|[t0 fin] rest IH]; simpl; [intros []|].
-  destruct (mlen t0) as [n0|] eqn:E; [|exact IH].
-  intros [H|H]; [inversion H; subst; exact E|]. destruct fin; [destruct H|apply IH; exact H].
+  induction sorted as [|[t0 fin] rest IH]; intros matched t n; simpl; [intros []|].
+  destruct (mlen t0) as [n0|] eqn:E.
+  - intros [H|H]; [inversion H; subst; exact E|]. destruct fin; [destruct H|eapply IH; exact H].
+  - destruct (matched && fin); [intros []|apply IH].
 Qed.
+
+Lemma token_iter_In mlen sorted t n : In (t, n) (token_iter mlen sorted) -> mlen t = Some n.
+Proof. unfold token_iter. apply token_iter_from_In. Qed.
 
 Lemma mono_b_weaken l : forall p p', mono_b p l = true -> p' <= p -> mono_b p' l = true.
 Proof.
